@@ -22,6 +22,8 @@
 
 #include "scheduler.h"
 #include <queue>
+#include <deque>
+#include <algorithm>
 
 namespace tbox {
 namespace coroutine {
@@ -35,10 +37,18 @@ class Channel {
     bool operator >> (T &out) {
         if (queue_.empty()) {   //! 如果队列里没有，则等待
             do {
-                token_.push(sch_.getToken());   //! 每次等待前都要登记，否则被唤醒后再次等待就无人唤醒了
+                token_.push_back(sch_.getToken());  //! 每次等待前都要登记，否则被唤醒后再次等待就无人唤醒了
                 sch_.wait();
-                if (sch_.isCanceled())
+                if (sch_.isCanceled()) {
+                    //! 被取消了，要撤销自己的登记，否则下次 operator<< 唤醒的是一个已不存在的等待者
+                    auto iter = std::find(token_.begin(), token_.end(), sch_.getToken());
+                    if (iter != token_.end())
+                        token_.erase(iter);
+                    //! 如果登记已被 operator<< 取走，说明那次唤醒是给自己的，要转交给下一个等待者
+                    else if (!queue_.empty())
+                        wakeupOne();
                     return false;
+                }
             } while (queue_.empty());
         }
 
@@ -48,11 +58,7 @@ class Channel {
     }
 
     Channel& operator << (const T &value) {
-        if (!token_.empty()) {  //! 每放入一个数据就唤醒一个等待者
-            auto t = token_.front();
-            token_.pop();
-            sch_.resume(t);
-        }
+        wakeupOne();    //! 每放入一个数据就唤醒一个等待者
         queue_.push(value);
         return *this;
     }
@@ -61,10 +67,20 @@ class Channel {
     inline bool size() const { return queue_.size(); }
 
   private:
+    //! 唤醒最早的一个等待者
+    void wakeupOne() {
+        if (!token_.empty()) {
+            auto t = token_.front();
+            token_.pop_front();
+            sch_.resume(t);
+        }
+    }
+
+  private:
     Scheduler &sch_;
 
     std::queue<T> queue_;
-    std::queue<RoutineToken> token_;
+    std::deque<RoutineToken> token_;
 };
 
 }
